@@ -29,6 +29,7 @@ import (
 	"github.com/gontainer/gontainer/internal/gontainer"
 	"github.com/gontainer/gontainer/internal/pkg/imports"
 	"github.com/gontainer/gontainer/internal/pkg/input"
+	"github.com/gontainer/gontainer/internal/pkg/maps"
 	"github.com/gontainer/gontainer/internal/pkg/output"
 	"github.com/gontainer/gontainer/internal/pkg/syntax"
 	"github.com/gontainer/gontainer/internal/pkg/token"
@@ -191,6 +192,12 @@ func handle(req J) J {
 		return opVersion(req)
 	case "build":
 		return opBuild(req)
+	case "mapkeys":
+		m := map[string]int{}
+		for i, k := range strs(req["keys"]) {
+			m[k] = i
+		}
+		return J{"ok": maps.Keys(m)}
 	case "surface":
 		return opSurface(req)
 	case "glob":
